@@ -102,6 +102,8 @@ type Exec struct {
 	aborter  *Thread
 	unmapped map[*byte]bool
 	unmappedLen map[uintptr]int
+	fdOwner  map[int]int
+	files    []trackedFile
 }
 
 const epoch0 = int64(1_700_000_000) * 1e9
@@ -669,7 +671,7 @@ func (x *Exec) schedule(me *Thread) {
 			if t == me {
 				return
 			}
-			x.cur = t
+			x.switchTo(t)
 			t.wake <- struct{}{}
 			if me == nil {
 				return
@@ -728,7 +730,7 @@ func (x *Exec) schedule(me *Thread) {
 		if t == me {
 			return
 		}
-		x.cur = t
+		x.switchTo(t)
 		t.wake <- struct{}{}
 		if me == nil {
 			return
@@ -739,6 +741,14 @@ func (x *Exec) schedule(me *Thread) {
 		}
 		return
 	}
+}
+
+// switchTo makes t the running thread; per-process global state is swapped by the hook.
+func (x *Exec) switchTo(t *Thread) {
+	if SwitchHook != nil && (x.cur == nil || x.cur.Proc != t.Proc) {
+		SwitchHook(t.Proc)
+	}
+	x.cur = t
 }
 
 // callerInfo names the first frames outside this package (trace mode only).
